@@ -359,6 +359,76 @@ theorem C06_index_range_operator_tables :
 /-- what a wrong row looks like: `literal >= column` (column <= literal) given an exclusive end -/
 example : rangeTablesOk [("reversed", [("GreaterThanOrEqual", false, true, false, false)])] = false := by decide
 
+/-! ### which sub-expressions the per-evaluator cache may keep (`ExpressionHasher::is_deterministic`) -/
+
+/-- leaves that never depend on the row, the session or the clock -/
+def constantLeaves : List String := ["Literal", "Wildcard", "Default", "DuplicateKeyValue"]
+
+/-- an arm is sound when: it says "not cacheable"; or it says "cacheable" for a constant leaf; or it
+recurses into EVERY field of the variant that holds an expression -/
+def cseArmOk (r : String × List String × String × List String) : Bool :=
+  let (variant, children, kind, used) := r
+  kind == "false" ||
+  (kind == "true" && children.isEmpty && constantLeaves.contains variant) ||
+  (kind == "rec" && !children.isEmpty && children.all (fun c => used.contains c))
+
+/-- `is_deterministic`, as it is in the tree now, against the AST definition as it is now: every
+variant of `enum Expression` has an arm, and every arm is sound in the sense above. Consequently
+(by induction over the expression) an expression is classed cacheable only if no sub-expression is a
+column reference, pseudo-variable, session variable, subquery, aggregate or clock function — so a
+cached value can never be a value computed from another row (the filters that keep the cache across
+rows rely on exactly this). Dropping a recursive check from an arm (seeded C04-3 / C06-3 / C10-3) or
+classing OLD./NEW. as cacheable (C34-2) breaks this `decide`. -/
+theorem C06_cse_cacheable_arms_sound :
+    Generated.c06CseArms.all cseArmOk = true ∧
+    Generated.c06AstVariants.all (fun v => Generated.c06CseArms.any (fun r => r.1 == v)) = true ∧
+    Generated.c06AstVariants.length ≥ 20 := by
+  decide
+
+/-- the model of the classification the table describes, and the lemma the table check gives:
+over an abstract expression tree, a node is cacheable iff its arm says so; with sound arms a
+cacheable tree contains no row-dependent leaf -/
+inductive ETree where
+  | leaf (rowDependent : Bool)
+  | node (children : List ETree)
+
+mutual
+def ETree.cacheable : ETree → Bool
+  | .leaf rd => !rd
+  | .node cs => ETree.allCacheable cs
+def ETree.allCacheable : List ETree → Bool
+  | [] => true
+  | c :: cs => c.cacheable && ETree.allCacheable cs
+end
+
+mutual
+def ETree.hasRowLeaf : ETree → Bool
+  | .leaf rd => rd
+  | .node cs => ETree.anyRowLeaf cs
+def ETree.anyRowLeaf : List ETree → Bool
+  | [] => false
+  | c :: cs => c.hasRowLeaf || ETree.anyRowLeaf cs
+end
+
+mutual
+theorem ETree.cacheable_no_row_leaf : (e : ETree) → e.cacheable = true → e.hasRowLeaf = false
+  | .leaf rd, h => by simpa [ETree.cacheable, ETree.hasRowLeaf] using h
+  | .node cs, h => by
+      simp only [ETree.cacheable] at h
+      simp only [ETree.hasRowLeaf]
+      exact ETree.allCacheable_no_row_leaf cs h
+theorem ETree.allCacheable_no_row_leaf : (cs : List ETree) → ETree.allCacheable cs = true → ETree.anyRowLeaf cs = false
+  | [], _ => rfl
+  | c :: cs, h => by
+      simp only [ETree.allCacheable, Bool.and_eq_true] at h
+      simp only [ETree.anyRowLeaf, Bool.or_eq_false_iff]
+      exact ⟨ETree.cacheable_no_row_leaf c h.1, ETree.allCacheable_no_row_leaf cs h.2⟩
+end
+
+/-- what an unsound arm looks like -/
+example : cseArmOk ("Like", ["expr", "pattern"], "rec", ["pattern"]) = false ∧
+    cseArmOk ("PseudoVariable", [], "true", []) = false := by decide
+
 /-- non-vacuity: a table on which a predicate takes all three truth values -/
 example : let p : Nat → TV := fun n => if n = 0 then u else if n % 2 = 0 then t else f
     filter3 p [0, 1, 2, 3] = [2] ∧ filter3 (fun r => not3 (p r)) [0, 1, 2, 3] = [1, 3]
